@@ -38,7 +38,7 @@ def vr_mult(kv):
 def gen_cfg(rng, vr_ok=True, lsr_ok=True):
     kv, vr = cl.gen_real_cfg(rng, allow_vr=vr_ok)
     if lsr_ok and not vr and rng.chance(.12):
-        kv["recipe"] = rng.choice([8, 9, 10])            # LSR recipes: no RESET_ON_CLEAR
+        kv["recipe"] = rng.choice([8, 9, 10, 11, 12, 13])   # LSR recipes (11..13 map to QQ / VHQ): no RESET_ON_CLEAR (88f0e06)
         kv["qflags"] = 0
     kv.update({"ch": rng.choice([1, 1, 2, 3]), "itype": rng.below(8), "otype": rng.below(8), "ioflags": 8,
                "amp": rng.choice([.4, .9, 1.3]), "sigseed": rng.below(1000), "scale": rng.choice([1, 1, 1, .5, 3]),
@@ -322,7 +322,7 @@ def fields_correspondence(ctx, ncases):
             kv["ch"] = 0
         if unconf:
             kv["ir"] = 0; kv["or"] = 0
-        reset = 1 if int(kv["recipe"]) < 8 else 0
+        reset = 1 if (int(kv["recipe"]) & 15) < 8 else 0
         c_lines, m_lines, expect = [], [], []
 
         def both(c, m):
